@@ -60,8 +60,18 @@ def adt_base(tys):
     return s
 
 
+class NeedFork(Exception):
+    """Raised while evaluating a statement: the value of `term` (one of `values`) must be known to go on (a constant table
+    indexed by an enum discriminant).  step_block forks the state on it and resumes at the same statement."""
+
+    def __init__(self, term, values):
+        Exception.__init__(self, "fork on %r" % (term,))
+        self.term = term
+        self.values = values
+
+
 class Activation:
-    __slots__ = ("fid", "fn", "body", "block", "ret_dest", "ret_target", "visits", "cvisits", "title", "subst")
+    __slots__ = ("fid", "fn", "body", "block", "ret_dest", "ret_target", "visits", "cvisits", "title", "subst", "stmt")
 
     def __init__(self, fid, fn, body, block, ret_dest, ret_target, title=None):
         self.fid = fid
@@ -72,6 +82,7 @@ class Activation:
         self.ret_target = ret_target
         self.visits = {}
         self.cvisits = {}
+        self.stmt = 0
         self.title = title
         self.subst = {}
 
@@ -79,6 +90,7 @@ class Activation:
         a = Activation(self.fid, self.fn, self.body, self.block, self.ret_dest, self.ret_target, self.title)
         a.visits = dict(self.visits)
         a.cvisits = dict(self.cvisits)
+        a.stmt = self.stmt
         a.subst = self.subst
         return a
 
@@ -348,6 +360,13 @@ class Evaluator:
                 return v[1]
             return ("proj", v, e)
         if k == "index":
+            if v[0] in ("array", "bytes") and e[1][0] != "int":
+                ci_ = self.concrete_index(st, e[1])
+                if ci_ is not None:
+                    return index_term(v, ci_)
+                dt, vals = self.finite_values(st, e[1])
+                if dt is not None and vals:
+                    raise NeedFork(dt, vals)      # a constant table indexed by an enum discriminant: one case per variant
             return index_term(v, e[1])
         if k == "cindex":
             if v[0] == "bytes" and not e[2]:
@@ -460,7 +479,7 @@ class Evaluator:
         v = c.get("val")
         if c.get("unevaluated") in ("core::time::Duration::ZERO",):
             return ("app", "duration_ms", (mk_int(0, "u64"),))      # std: Duration::ZERO is a zero-length duration
-        if c.get("unevaluated_path") and ty["k"] == "adt" and (v is None or v["k"] in ("indirect", "ptr")):
+        if c.get("unevaluated_path") and ty["k"] in ("adt", "array", "tuple") and (v is None or v["k"] in ("indirect", "ptr")):
             r = self.eval_const_item(c["unevaluated_path"])
             if r is not None:
                 return r
@@ -840,11 +859,18 @@ class Evaluator:
                 act.visits[act.block] = n
                 if n > 6:
                     raise Unsupported("loop at bb%d of %s makes no observable progress" % (act.block, act.fn["name"]))
-        for s in blk["stmts"]:
+        start = act.stmt
+        act.stmt = 0
+        for si, s in enumerate(blk["stmts"]):
+            if si < start:
+                continue        # resuming after a fork raised by a later statement of this block
             if s["st"] == "assign":
                 w = self.where(act, s.get("span"))
-                v = self.rvalue(st, act, s["rvalue"], w)
-                self.store(st, self.place_target(st, fid, s["place"]), v, w)
+                try:
+                    v = self.rvalue(st, act, s["rvalue"], w)
+                    self.store(st, self.place_target(st, fid, s["place"]), v, w)
+                except NeedFork as nf:
+                    return self.fork_on(st, act, nf, si, w)
             elif s["st"] == "setdiscr":
                 raise Unsupported("SetDiscriminant")
             else:
@@ -852,6 +878,54 @@ class Evaluator:
         t = blk["term"]
         k = t["t"]
         w = self.where(act, t.get("span"))
+        try:
+            return self.step_terminator(st, act, blk, t, k, w, fid)
+        except NeedFork as nf:
+            return self.fork_on(st, act, nf, len(blk["stmts"]), w)
+
+    def fork_on(self, st, act, nf, si, w):
+        out = []
+        for val in nf.values:
+            s2 = st.fork()
+            if not s2.constrain_in(nf.term, [val]):
+                continue
+            s2.decisions = s2.decisions + ((nf.term, val, w),)
+            s2.stack[-1].stmt = si
+            out.append(s2)
+        return out
+
+    def finite_values(self, st, t):
+        """the finitely many values an index term can take when it is (a cast of) an enum discriminant, else None"""
+        while t[0] == "app" and t[1].startswith("cast:") and len(t[2]) == 1:
+            t = t[2][0]
+        if t[0] != "discr":
+            return None, None
+        d = st.cons.get(t)
+        if d is not None and d[0] == "in":
+            return t, sorted(d[1])
+        ty = term_type(t[1])
+        a = self.adt(ty.split("<")[0]) if ty else None
+        if a is None or a["kind"] != "enum" or len(a["variants"]) > 32:
+            return None, None
+        vals = sorted(self.discr_of(a["path"], v["idx"]) for v in a["variants"])
+        if d is not None and d[0] == "out":
+            vals = [x for x in vals if x not in d[1]]
+        return t, vals
+
+    def concrete_index(self, st, t):
+        """the integer value of an index term the store determines (through casts of a known discriminant)"""
+        if t[0] == "int":
+            return t
+        kn = st.known(t)
+        if kn is not None:
+            return mk_int(kn, "usize")
+        if t[0] == "app" and t[1].startswith("cast:") and len(t[2]) == 1:
+            r = self.concrete_index(st, t[2][0])
+            if r is not None:
+                return mk_int(r[1], t[1][5:])
+        return None
+
+    def step_terminator(self, st, act, blk, t, k, w, fid):
         if k == "goto":
             act.block = t["target"]
             return [st]
@@ -1259,6 +1333,31 @@ class Evaluator:
         if res is not None:
             self.stats["modelled"].add(name)
             return self.apply_results(ci, res)
+        # 3b. a closure / function value called through a generic `F: Fn*` parameter: dispatch on the value
+        if fnj.get("item") in ("call", "call_mut", "call_once") and (fnj.get("trait") or "").startswith("core::ops::function::Fn") and len(args) == 2 and target is not None:
+            f = args[0]
+            fref = None
+            for _ in range(4):
+                if f[0] == "ref":
+                    fref = f
+                    try:
+                        f = self.load(st, f[1])
+                    except Unsupported:
+                        break
+                else:
+                    break
+            spread = list(args[1][1]) if args[1][0] == "tuple" else ([] if args[1][0] == "unit" else None)
+            if spread is not None and f[0] == "closure" and f[1] in self.prog.fns:
+                cfn = self.prog.fns[f[1]]
+                selfarg = f
+                if cfn["body"]["locals"][1]["ty"]["k"] == "ref":
+                    selfarg = fref if (fref is not None and fref[0] == "ref") else ("ref", ("val", f, ()), False)
+                self.stats["inlined"].add(cfn["name"])
+                self.push(st, cfn, cfn["body"], [selfarg] + spread, dest, target)
+                return [st]
+            if spread is not None and f[0] == "fn":
+                fj2 = self.fnrefs[f[1]]
+                return self.call_fn(st, act, fj2, spread, dest, target, w)
         # 4. opaque effect
         self.stats["opaque_calls"].add(name)
         if target is None:
